@@ -74,6 +74,7 @@ Clauses ==
     [] OTHER ->    \* flatten
          IF c.raised # "" THEN <<"C18.flatten.raised">>
          ELSE Fail(c.out = Concat([k \in 1 .. Len(c.tables) |-> [j \in 1 .. Len(c.tables[k]) |-> <<c.tables[k][j], c.labels[k]>>]]), "C18.flatten_dfs")
+           \o Fail(c.out_later = c.out, "C18.flatten_dfs.result_changed_by_a_later_call_on_the_same_tables")
 
 Judge == /\ stage = "call"
          /\ fails' = Clauses
